@@ -243,6 +243,18 @@ func cmdCheck(args []string) int {
 			reportViolation(o, *prop, replayDir, workdir, *noReplay)
 		}
 	}
+	// known findings that are not tied to a generated obligation (defects outside the verified kernel)
+	have := map[string]bool{}
+	for _, o := range all {
+		have[o.Name] = true
+	}
+	for _, name := range sortedKnown(knownBy) {
+		if !have[name] {
+			line := fmt.Sprintf("KNOWN-FINDING: property=%s %s %s", *prop, name, knownBy[name].What)
+			fmt.Println(line)
+			knownPrinted = append(knownPrinted, line)
+		}
+	}
 	sort.SliceStable(obReports, func(i, j int) bool { return obReports[i].Name < obReports[j].Name })
 	for i, o := range all {
 		if i%(len(all)/4+1) == 0 && len(samples) < 5 {
@@ -287,6 +299,15 @@ func cmdCheck(args []string) int {
 		return 1
 	}
 	return 0
+}
+
+func sortedKnown(m map[string]*KnownFinding) []string {
+	var ks []string
+	for k := range m {
+		ks = append(ks, k)
+	}
+	sort.Strings(ks)
+	return ks
 }
 
 func sortedPkgPaths(m map[string]*PkgContracts) []string {
